@@ -9,6 +9,11 @@ once and handed to containers again and again (same name, second name, another c
 `x.vis = ..` and `x.name = ..` in between; ALL containers are observed after every operation and Coq replays the history
 through Spec/C18World.v and Model/C18World.v (Corr/C18.v: chk_world). Coverage targets (W_TARGETS) are measured on what the
 implementation accepted and fail closed.
+
+Second strengthening round: Signals in all eight (visibility x direction) flavours (SIGK; `x.direction = ..` as world
+operation "dir"), stream exhaustive-signal-flavours, stream class-then-edit (class body with plain data under public names,
+then edits re-using those names; Corr/C18.v: chk_class_hist), attribute access on unbound names must find nothing
+(Corr/C18.v: ga_ok).  Coverage targets DIR_TARGETS / CH_TARGETS and the new W_TARGETS fail closed.
 """
 import json, itertools, time
 from . import core
@@ -17,12 +22,29 @@ from .core import cz, cstr, clist, cbool
 IMPORTS = ("Require Import Hdl21.Base.PyInt Hdl21.Spec.Namespace Hdl21.Model.Namespace Hdl21.Spec.C18World Hdl21.Corr.C03 Hdl21.Corr.C18.\n"
            "From Coq Require Import String.\nOpen Scope string_scope.")
 
-KIND = dict(port="(KSignal true)", sig="(KSignal false)", inst="KInstance", arr="KInstArray", ibun="KInstBundle",
+KIND = dict(port="(KSignal true DNone)", sig="(KSignal false DNone)",
+            **{"in": "(KSignal true DInput)"}, out="(KSignal true DOutput)", inout="(KSignal true DInout)",
+            sigin="(KSignal false DInput)", sigout="(KSignal false DOutput)", siginout="(KSignal false DInout)", tup="KOther",
+            inst="KInstance", arr="KInstArray", ibun="KInstBundle",
             bun="KBundleInst", str="KStr", none="KStr", int="KOther", mod="KOther", gen="KOther", bdef="KOther",
             func="KOther", role="KOther")
 HDL_M = ["port", "sig", "inst", "arr", "ibun", "bun"]
 HDL_B = ["port", "sig", "bun"]
 NONHDL = ["int", "mod", "gen", "bdef", "func", "none", "str", "role"]
+# second strengthening round: Signals that carry a direction.  in / out / inout = h.Input() .. (port-visible);
+# sigin / sigout / siginout = h.Signal(direction=PortDir.X): INTERNAL visibility with a direction (never a port)
+DIRECTED_PORT = ["in", "out", "inout"]
+DIRECTED_INT = ["sigin", "sigout", "siginout"]
+SIGK = ["sig", "port"] + DIRECTED_PORT + DIRECTED_INT
+PORTK = ["port"] + DIRECTED_PORT
+DIR_OF = dict(sig="none", port="none", sigin="input", sigout="output", siginout="inout", out="output", inout="inout", **{"in": "input"})
+ALL_HDL = HDL_M + DIRECTED_PORT + DIRECTED_INT
+PLAIN_DATA = ["int", "tup", "str", "func", "none"]
+
+
+def rand_kinds(ctr):
+    """Kinds the seeded streams draw from: every storable kind, Signals in all eight (visibility x direction) flavours."""
+    return hdl_kinds(ctr) + DIRECTED_PORT + DIRECTED_INT
 
 
 def hdl_kinds(ctr):
@@ -136,7 +158,9 @@ def shrink(job, rounds=3):
 
 def py_repro(job):
     """A python one-liner-ish reproducer of a history."""
-    mk = dict(port="h.Port({})", sig="h.Signal({})", inst="h.Instance(of=Leaf{})", arr="h.InstanceArray(of=Leaf, n=2{})",
+    mk = dict(out="h.Output({})", inout="h.Inout({})", sigin="h.Signal(direction=h.PortDir.INPUT{})", sigout="h.Signal(direction=h.PortDir.OUTPUT{})",
+              siginout="h.Signal(direction=h.PortDir.INOUT{})", tup="('a', 'b')", **{"in": "h.Input({})"},
+              port="h.Port({})", sig="h.Signal({})", inst="h.Instance(of=Leaf{})", arr="h.InstanceArray(of=Leaf, n=2{})",
               ibun="h.Pair(of=Leaf{})", bun="h.BundleInstance(of=Sub{})", str="'Renamed'", none="None", int="7",
               mod="h.Module(name='X')", gen="SomeGenerator", bdef="Sub", func="(lambda: None)", role="h.Role(name='Host')")
     def val(s):
@@ -226,6 +250,11 @@ def corpus():
         [["set", "a", ["int", None]], ["set", "a", ["mod", None]], ["set", "a", ["gen", None]], ["add", ["func", None], "a"]],
         [["add", ["sig", "a"], "b"], ["add", ["sig", None], None]],
         [["set", "_t", S], ["set", "a", S], ["set", "name", ["str", None]], ["set", "name", ["none", None]]],
+        # seeded change C18r4-B: INTERNAL signals that carry a direction are signals, never ports (setattr, add, re-use of a port's name)
+        [["set", "a", ["sigin", None]], ["set", "b", ["in", None]]],
+        [["add", ["sigout", "a"], None], ["add", ["siginout", None], "b"]],
+        [["set", "a", ["out", None]], ["add", ["sigout", None], "a"]],
+        [["set", "a", ["sigin", None]], ["set", "a", ["inout", None]], ["set", "a", ["siginout", None]], ["elab"]],
     ]
     buns = [
         [["set", "a", S], ["set", "a", B]],                        # same defect in Bundle._add
@@ -239,6 +268,7 @@ def corpus():
         [["set", "name", S]],
         [["set", "a", S], ["del", "a"], ["del", "name"]],
         [["set", "a", I], ["set", "a", ["int", None]], ["set", "roles", S]],
+        [["set", "a", ["sigin", None]], ["add", ["out", "a"], None], ["add", ["siginout", None], "b"]],
     ]
     allm = nm + ["ports", "name", "bundle_ports", "_t"]
     allb = nm + ["get", "props", "Roles", "roles", "signals", "name"]
@@ -277,7 +307,7 @@ def gen_random(r, ctr, plain, special, maxlen, p_valid):
         u = r.random()
         if u < p_valid:
             nm = r.choice(plain)
-            kind = r.choice(hdl_kinds(ctr))
+            kind = r.choice(rand_kinds(ctr))
             form = r.random()
             if form < 0.5:
                 ops.append(["set", nm, [kind, r.choice([None, None, r.choice(plain)])]])   # own name is overwritten
@@ -289,9 +319,9 @@ def gen_random(r, ctr, plain, special, maxlen, p_valid):
             w = r.random()
             nm = r.choice(plain + special)
             if w < 0.3:
-                ops.append(["set", r.choice(special), [r.choice(hdl_kinds(ctr)), None]])
+                ops.append(["set", r.choice(special), [r.choice(rand_kinds(ctr)), None]])
             elif w < 0.45:
-                kind = r.choice(hdl_kinds(ctr))
+                kind = r.choice(rand_kinds(ctr))
                 sp = r.choice([s for s in special if not s.startswith("_")] or special)
                 ops.append(["add", [kind, sp], None] if r.random() < 0.5 else ["add", [kind, None], sp])
             elif w < 0.65:
@@ -301,10 +331,10 @@ def gen_random(r, ctr, plain, special, maxlen, p_valid):
             elif w < 0.85:
                 ops.append(["del", nm])
             elif w < 0.93:
-                kind = r.choice(hdl_kinds(ctr))
+                kind = r.choice(rand_kinds(ctr))
                 ops.append(["add", [kind, r.choice(plain)], r.choice(plain)])            # two names
             else:
-                ops.append(["add", [r.choice(hdl_kinds(ctr)), None], None])               # anonymous
+                ops.append(["add", [r.choice(rand_kinds(ctr)), None], None])               # anonymous
     return ops
 
 
@@ -320,7 +350,8 @@ def nontrivial(job):
     return reuse or any(op[0] in ("del", "elab") for op in job["ops"])
 
 
-def gen_items(r, ctr, plain, special):
+def gen_items(r, ctr, plain, special, p_plain=0.25):
+    """A class body: distinct keys in random order; HDL values of every flavour, and plain data (`width = 8`) under PUBLIC names."""
     keys = list(plain)
     r.shuffle(keys)
     keys = keys[:r.randint(1, len(keys))]
@@ -331,13 +362,88 @@ def gen_items(r, ctr, plain, special):
     keys = list(dict.fromkeys(keys))
     items = []
     for k in keys:
-        if r.random() < 0.75:
-            kind = r.choice(hdl_kinds(ctr))
+        if r.random() >= p_plain:
+            kind = r.choice(rand_kinds(ctr))
         else:
-            kind = r.choice(NONHDL + (["inst"] if ctr == "bundle" else []))
+            kind = r.choice(NONHDL + ["tup"] + (["inst"] if ctr == "bundle" else []))
         items.append([k, [kind, None]])
     return items
 
+
+def gen_class_then_edit(r, ctr, plain, special, maxlen):
+    """Class body in which (mostly) some public plain names hold plain data, then edits that prefer exactly those names."""
+    items = gen_items(r, ctr, plain, special if r.random() < 0.2 else ["_t"], p_plain=0.5)
+    data_names = [k for k, (kind, _) in items if kind in PLAIN_DATA + ["mod", "gen", "bdef", "role"] and k in plain]
+    pool = (data_names * 3 + plain) if data_names else plain
+    n = r.randint(1, maxlen)
+    ops = []
+    for _ in range(n):
+        u = r.random()
+        nm = r.choice(pool)
+        kind = r.choice(rand_kinds(ctr))
+        if u < 0.45:
+            ops.append(["set", nm, [kind, None]])
+        elif u < 0.65:
+            ops.append(["add", [kind, None], nm])
+        elif u < 0.85:
+            ops.append(["add", [kind, nm], None])
+        elif u < 0.92:
+            ops.append(["set", nm, [r.choice(PLAIN_DATA), None]])          # plain data by assignment: rejected
+        elif u < 0.96:
+            ops.append(["del", nm])
+        else:
+            ops.append(["set", r.choice(special), [kind, None]])
+    return dict(ctr=ctr, items=items, ops=ops, names=plain + special, export=True)
+
+
+def c_classhist(job, out):
+    ctr = "CModule" if job["ctr"] == "module" else "CBundle"
+    items = clist(list(enumerate(job["items"])), lambda e: f"({cstr(e[1][0])}, {c_val(e[0], e[1][1])})")
+    r = out["cls"]
+    base = len(job["items"])
+    steps = [f"IS {c_op(base + k, op)} {cbool(st['acc'])} {c_obs(st['obs'])}" for k, (op, st) in enumerate(zip(job["ops"], out["steps"]))]
+    return (f"({ctr}, {items}, {cbool(r['acc'])}, {c_obs(r.get('obs'))}, {clist(job['names'], cstr)}, {clist(steps)}, "
+            f"{c_export(out.get('export')) if r['acc'] else 'None'})")
+
+
+def classhist_targets(job, out):
+    """Coverage (measured on what the implementation ACCEPTED): a public name the class body gave to plain data is re-used."""
+    hit = set()
+    if not out["cls"]["acc"]:
+        return hit
+    data = {k for k, (kind, _) in job["items"] if KIND.get(kind) in ("KOther", "KStr") and not k.startswith("_")}
+    if data:
+        hit.add(f"class_body_with_public_plain_data_{job['ctr']}")
+    for op, st in zip(job["ops"], out["steps"]):
+        if not st["acc"]:
+            continue
+        if op[0] == "set" and op[1] in data:
+            hit.add(f"class_plain_data_name_reused_by_setattr_{job['ctr']}")
+        if op[0] == "add" and (op[2] if op[2] is not None else op[1][1]) in data:
+            hit.add(f"class_plain_data_name_reused_by_add_{job['ctr']}")
+    return hit
+
+
+CH_TARGETS = [f"{t}_{c}" for c in ("module", "bundle") for t in
+              ("class_body_with_public_plain_data", "class_plain_data_name_reused_by_setattr", "class_plain_data_name_reused_by_add")]
+DIR_TARGETS = [f"internal_directed_signal_stored_by_{p}_{c}" for c in ("module", "bundle") for p in ("setattr", "add", "class_body")]
+
+
+def dir_targets_history(job, out):
+    """Coverage: an INTERNAL signal that carries a direction was ACCEPTED through setattr / add()."""
+    hit = set()
+    for op, st in zip(job["ops"], out["steps"]):
+        if st["acc"] and op[0] == "set" and op[2][0] in DIRECTED_INT and not op[1].startswith("_"):
+            hit.add(f"internal_directed_signal_stored_by_setattr_{job['ctr']}")
+        if st["acc"] and op[0] == "add" and op[1][0] in DIRECTED_INT:
+            hit.add(f"internal_directed_signal_stored_by_add_{job['ctr']}")
+    return hit
+
+
+def dir_targets_class(job, out):
+    if out["cls"]["acc"] and any(kind in DIRECTED_INT and not k.startswith("_") for k, (kind, _) in job["items"]):
+        return {f"internal_directed_signal_stored_by_class_body_{job['ctr']}"}
+    return set()
 
 
 # ==========================================================================================================
@@ -356,6 +462,8 @@ def c_wop(job, op):
         return f"(WAdd {c_cid(job, op[1])} {op[2]} {c_name_opt(op[3])})"
     if op[0] == "vis":
         return f"(WVis {op[1]} {cbool(op[2])})"
+    if op[0] == "dir":
+        return f"(WDir {op[1]} {dict(none='DNone', input='DInput', output='DOutput', inout='DInout')[op[2]]})"
     if op[0] == "name":
         return f"(WName {op[1]} {c_name_opt(op[2])})"
     if op[0] == "del":
@@ -406,7 +514,11 @@ def evaluate_world(tag, jobs, chunk=150):
 W_TARGETS = ["readd_same_name_after_vis_flip", "readd_same_name_unchanged", "taken_by_other_container_and_taken_back",
              "taken_by_other_container_of_same_class", "same_object_second_name_in_one_container",
              "object_shared_by_module_and_bundle", "vis_flip_of_held_signal", "readd_of_held_object_after_elaboration_rejected",
-             "rejected_add_then_accepted_add_of_same_object", "rename_of_held_object", "readd_instance_like_taken_back"]
+             "rejected_add_then_accepted_add_of_same_object", "rename_of_held_object", "readd_instance_like_taken_back",
+             # second strengthening round: INTERNAL signals that carry a direction
+             "internal_directed_signal_stored_in_module", "internal_directed_signal_stored_in_bundle",
+             "directed_port_turned_internal_and_readded_under_held_name", "directed_port_turned_internal_then_first_added",
+             "direction_set_on_held_internal_signal_then_readded", "direction_cleared_on_held_port_then_readded"]
 
 
 def world_targets(job, out):
@@ -415,7 +527,8 @@ def world_targets(job, out):
     nc = len(job["ctrs"])
     ns = [dict() for _ in range(nc)]                  # name -> (x, port flag it was sorted by)
     elab = [False] * nc
-    ob = [dict(kind=k, port=(k == "port") if k in ("sig", "port") else None, name=nm, par={"module": None, "bundle": None})
+    ob = [dict(kind=k, port=(k in PORTK) if k in SIGK else None, dir=DIR_OF.get(k), was_port=False, dir_changed_held=False,
+               name=nm, par={"module": None, "bundle": None})
           for k, nm in job["objs"]]
     rejected = set()
     for op, st in zip(job["ops"], out["steps"]):
@@ -432,7 +545,7 @@ def world_targets(job, out):
             if not acc:
                 if elab[c] and holders:
                     hit.add("readd_of_held_object_after_elaboration_rejected")
-                if o["kind"] in HDL_M:
+                if o["kind"] in ALL_HDL:
                     rejected.add(x)
                 continue
             if n is None:
@@ -440,6 +553,15 @@ def world_targets(job, out):
             if x in rejected:
                 hit.add("rejected_add_then_accepted_add_of_same_object")
                 rejected.discard(x)
+            if o["port"] is False and o["dir"] not in (None, "none"):
+                hit.add(f"internal_directed_signal_stored_in_{cls}")
+                if o["was_port"] and cls == "module":
+                    hit.add("directed_port_turned_internal_and_readded_under_held_name" if n in holders
+                            else "directed_port_turned_internal_then_first_added")
+                if o["dir_changed_held"] and cls == "module" and n in holders:
+                    hit.add("direction_set_on_held_internal_signal_then_readded")
+            if o["port"] and o["dir"] == "none" and o["dir_changed_held"] and cls == "module" and n in holders:
+                hit.add("direction_cleared_on_held_port_then_readded")
             if n in holders:
                 stolen = o["par"][cls] != c
                 flipped = cls == "module" and o["port"] is not None and ns[c][n][1] != o["port"]
@@ -447,7 +569,7 @@ def world_targets(job, out):
                     hit.add("readd_same_name_after_vis_flip")
                 if stolen:
                     hit.add("taken_by_other_container_and_taken_back")
-                    if o["kind"] not in ("sig", "port"):
+                    if o["kind"] not in SIGK:
                         hit.add("readd_instance_like_taken_back")
                 if not flipped and not stolen and o["name"] == n:
                     hit.add("readd_same_name_unchanged")
@@ -465,7 +587,13 @@ def world_targets(job, out):
         elif op[0] == "vis" and acc:
             if ob[op[1]]["port"] != op[2] and any(e[0] == op[1] for d in ns for e in d.values()):
                 hit.add("vis_flip_of_held_signal")
+            if ob[op[1]]["port"] and not op[2]:
+                ob[op[1]]["was_port"] = True
             ob[op[1]]["port"] = op[2]
+        elif op[0] == "dir" and acc:
+            if ob[op[1]]["dir"] != op[2] and any(e[0] == op[1] for d in ns for e in d.values()):
+                ob[op[1]]["dir_changed_held"] = True
+            ob[op[1]]["dir"] = op[2]
         elif op[0] == "name" and acc:
             if any(e[0] == op[1] for d in ns for e in d.values()):
                 hit.add("rename_of_held_object")
@@ -476,10 +604,10 @@ def world_targets(job, out):
 
 
 def world_nontrivial(job):
-    """Non-trivial = some object is handed to containers at least twice, or is mutated (vis / name) at all."""
+    """Non-trivial = some object is handed to containers at least twice, or is mutated (vis / direction / name) at all."""
     seen = set()
     for op in job["ops"]:
-        if op[0] in ("vis", "name"):
+        if op[0] in ("vis", "name", "dir"):
             return True
         if op[0] in ("set", "add"):
             x = op[3] if op[0] == "set" else op[2]
@@ -490,7 +618,9 @@ def world_nontrivial(job):
 
 
 def py_repro_world(job):
-    mk = dict(port="h.Port({})", sig="h.Signal({})", inst="h.Instance(of=Leaf{})", arr="h.InstanceArray(of=Leaf, n=2{})",
+    mk = dict(out="h.Output({})", inout="h.Inout({})", sigin="h.Signal(direction=h.PortDir.INPUT{})", sigout="h.Signal(direction=h.PortDir.OUTPUT{})",
+              siginout="h.Signal(direction=h.PortDir.INOUT{})", tup="('a', 'b')", **{"in": "h.Input({})"},
+              port="h.Port({})", sig="h.Signal({})", inst="h.Instance(of=Leaf{})", arr="h.InstanceArray(of=Leaf, n=2{})",
               ibun="h.Pair(of=Leaf{})", bun="h.BundleInstance(of=Sub{})", str="'Renamed'", none="None", int="7",
               mod="h.Module(name='X')", gen="SomeGenerator", bdef="Sub", func="(lambda: None)", role="h.Role(name='Host')")
     def val(sp):
@@ -514,6 +644,8 @@ def py_repro_world(job):
             lines.append(f"c{op[1]}.add(o{op[2]}" + ("" if op[3] is None else f", name={op[3]!r}") + ")")
         elif op[0] == "vis":
             lines.append(f"o{op[1]}.vis = V.{'PORT' if op[2] else 'INTERNAL'}")
+        elif op[0] == "dir":
+            lines.append(f"o{op[1]}.direction = h.PortDir.{op[2].upper()}")
         elif op[0] == "name":
             lines.append(f"o{op[1]}.name = {op[2]!r}")
         elif op[0] == "del":
@@ -629,12 +761,19 @@ def world_corpus():
         mk_world(MM, [S], [["set", 0, "a", 0], ["name", 0, None], ["add", 0, 0, "b"], ["name", 0, "c"], ["add", 0, 0, None]]),
         # stealing makes the robbed Module an orphanage case: its elaboration is refused, the thief's is fine
         mk_world(MM, [S], [["set", 0, "s", 0], ["set", 1, "y", 0], ["elab", 1], ["elab", 0]]),
+        # seeded change C18r4-B: an internal signal that carries a direction is listed under signals
+        mk_world(MM, [["out", None], ["out", None]], [["set", 0, "x", 0], ["vis", 1, False], ["add", 0, 1, "x"]]),          # demo, part 2
+        mk_world(MM, [["in", "a"]], [["add", 0, 0, None], ["vis", 0, False], ["add", 0, 0, None]]),                         # held port turned internal, re-added
+        mk_world(MM, [["sigin", None]], [["set", 0, "a", 0], ["vis", 0, True], ["set", 0, "a", 0], ["vis", 0, False], ["set", 0, "a", 0]]),
+        mk_world(MM, [S], [["set", 0, "a", 0], ["dir", 0, "inout"], ["set", 0, "a", 0], ["elab", 0]]),                      # direction set behind the Module's back
+        mk_world(MM, [["inout", None]], [["vis", 0, False], ["set", 0, "a", 0], ["dir", 0, "none"], ["add", 1, 0, None]]),
+        mk_world(MB, [["out", None]], [["set", 1, "a", 0], ["vis", 0, False], ["add", 0, 0, None], ["set", 1, "a", 0]]),
+        mk_world(MM, [P], [["set", 0, "a", 0], ["dir", 0, "input"], ["set", 0, "a", 0], ["dir", 0, "none"], ["set", 0, "a", 0]]),
     ]
     return jobs
 
 
-def world_exhaustive(ctrs, objs, maxlen, vis_values=(True, False)):
-    names = ["a", "b"]
+def world_exhaustive(ctrs, objs, maxlen, vis_values=(True, False), dir_values=(), names=("a", "b")):
     ops = []
     for c in range(len(ctrs)):
         for x in range(len(objs)):
@@ -642,8 +781,9 @@ def world_exhaustive(ctrs, objs, maxlen, vis_values=(True, False)):
                 ops.append(["set", c, n, x])
             ops.append(["add", c, x, None])
     for x, (k, _) in enumerate(objs):
-        if k in ("sig", "port"):
+        if k in SIGK:
             ops += [["vis", x, v] for v in vis_values]
+            ops += [["dir", x, d] for d in dir_values]
     jobs = []
     for L in range(1, maxlen + 1):
         for seq in itertools.product(ops, repeat=L):
@@ -658,7 +798,7 @@ def gen_world(r, maxlen, special_m, special_b):
     plain = ["a", "b", "c"]
     objs = []
     for _ in range(nobj):
-        k = r.choice(["sig", "sig", "port", "port", "bun", "inst", "inst", "arr", "ibun"])
+        k = r.choice(["sig", "sig", "port", "port", "bun", "inst", "inst", "arr", "ibun"] + DIRECTED_PORT + DIRECTED_INT)
         objs.append([k, r.choice([None, None, r.choice(plain)])])
     if r.random() < 0.15:
         objs.append([r.choice(["int", "mod", "str", "func"]), None])
@@ -694,14 +834,17 @@ def gen_world(r, maxlen, special_m, special_b):
             name[x] = nm
             held.add(x)
         elif u < 0.72:
-            sigs = [i for i, o in enumerate(objs) if o[0] in ("sig", "port")]
+            sigs = [i for i, o in enumerate(objs) if o[0] in SIGK]
             if sigs:
-                xs = x if kind in ("sig", "port") else r.choice(sigs)
-                ops.append(["vis", xs, r.random() < 0.5])
+                xs = x if kind in SIGK else r.choice(sigs)
+                if r.random() < 0.7:
+                    ops.append(["vis", xs, r.random() < 0.5])
+                else:
+                    ops.append(["dir", xs, r.choice(["none", "input", "output", "inout"])])
             else:
                 ops.append(["set", c, r.choice(plain), x])
         elif u < 0.78:
-            if kind in HDL_M:
+            if kind in ALL_HDL:
                 nm = r.choice([None, None, r.choice(plain)])
                 ops.append(["name", x, nm])
                 name[x] = nm
@@ -756,6 +899,12 @@ def run_world_streams(run, quick, seed, pub_m, pub_b):
         jobs, nops = world_exhaustive(ctrs, objs, maxlen, vv)
         do(f"world-exhaustive-{tag}", jobs, "wexh" + tag, 200, exhaustive=True, ops_per_step=nops, max_length=maxlen,
            box=f"all sequences of length <= {maxlen} over containers {ctrs}, objects {objs}, names a,b x {{setattr, add(x), x.vis = {' / '.join('PORT' if v else 'INTERNAL' for v in vv)}}}")
+    # second strengthening round: one Module, a directed port and a plain signal, one name; visibility AND direction assignments
+    ctrs, objs = ["module"], [["in", None], ["sig", None]]
+    maxlen = 3 if quick else 4
+    jobs, nops = world_exhaustive(ctrs, objs, maxlen, (True, False), ("none", "output"), names=("a",))
+    do("world-exhaustive-dir", jobs, "wexhd", 200, exhaustive=True, ops_per_step=nops, max_length=maxlen,
+       box=f"all sequences of length <= {maxlen} over containers {ctrs}, objects {objs}, name a x {{setattr, add(x), x.vis = PORT / INTERNAL, x.direction = NONE / OUTPUT}}")
     n_rand = 1000 if quick else 12000
     maxlen = 10 if quick else 20
     sm = [n for n in ["ports", "signals", "name", "get", "_t"] if n in pub_m or n == "_t"]
@@ -771,11 +920,103 @@ def run_world_streams(run, quick, seed, pub_m, pub_b):
                           dict(kind="coverage"), found_input=False)
     return total
 
+def class_hist_corpus():
+    S, I, B = ["sig", None], ["inst", None], ["bun", None]
+    W, L = ["int", None], ["tup", None]
+    nm = ["width", "lanes", "data", "valid", "a"]
+    return [
+        # seeded change C18r4-C: plain helper data of the class body, the names re-used later (setattr, add, another kind)
+        dict(ctr="bundle", items=[["width", W], ["lanes", L], ["data", S], ["valid", S]], names=nm, export=True,
+             ops=[["set", "width", ["sig", None]], ["add", ["bun", None], "lanes"], ["set", "valid", ["port", None]]]),
+        dict(ctr="module", items=[["width", W], ["lanes", L], ["data", S], ["valid", ["in", None]]], names=nm, export=True,
+             ops=[["set", "width", ["sigin", None]], ["add", ["inst", None], "lanes"], ["add", ["out", "width"], None]]),
+        dict(ctr="bundle", items=[["width", W]], names=nm, export=True, ops=[]),
+        dict(ctr="module", items=[["a", ["func", None]], ["width", ["str", None]], ["data", I]], names=nm, export=True,
+             ops=[["add", ["sig", "a"], None], ["set", "width", ["arr", None]], ["set", "width", ["int", None]]]),
+        dict(ctr="bundle", items=[["a", ["siginout", None]], ["lanes", ["none", None]], ["data", B]], names=nm, export=True,
+             ops=[["set", "lanes", ["out", None]], ["set", "a", ["bun", None]]]),
+    ]
+
+
+def run_class_then_edit(run, quick, seed, pub_m, pub_b, cov2):
+    n = 500 if quick else 6000
+    maxlen = 5 if quick else 10
+    jobs = class_hist_corpus()
+    plain = ["a", "b", "c"]
+    for ctr, pub in (("bundle", pub_b), ("module", pub_m)):
+        special = sorted(set(pub)) + ["_t"]
+        for k in range(n // 2):
+            jobs.append(gen_class_then_edit(core.rng(seed, "C18", "class-then-edit-" + ctr, k), ctr, plain, special, maxlen))
+    outs = core.run_worker_sharded("c18", jobs, common=dict(kind="classhist"))
+    # an elaboration is never part of these histories; a rejected class definition has no steps
+    for j, o in zip(jobs, outs):
+        if not o["cls"]["acc"]:
+            j["ops_run"] = []
+    cases = [c_classhist(j if o["cls"]["acc"] else dict(j, ops=[]), o) for j, o in zip(jobs, outs)]
+    bad = core.coq_eval_cases("C18", "classhist", IMPORTS, "chcase", cases, "run_cases chk_class_hist", chunk=150)
+    res = {i: (r % 10, r // 10 - 1) for i, r in bad}
+    hits = {}
+    for j, o in zip(jobs, outs):
+        for t in classhist_targets(j, o) | dir_targets_class(j, o) | (dir_targets_history(j, o) if o["cls"]["acc"] else set()):
+            hits[t] = hits.get(t, 0) + 1
+            cov2[t] += 1
+    nrej = sum(1 for o in outs if not o["cls"]["acc"])
+    nops = sum(len(o["steps"]) for o in outs)
+    nrejops = sum(1 for o in outs for st in o["steps"] if not st["acc"])
+    run.stream("class-then-edit", len(jobs), len({json.dumps([j["items"], j["ops"]]) for j in jobs if j["ops"]}),
+               rejected_class_bodies=nrej, operations=nops, rejected_operations=nrejops,
+               rejected_fraction=round((nrej + nrejops) / max(1, len(jobs) + nops), 3), targets_met=hits, max_length=maxlen,
+               export_failed=sum(1 for o in outs if "err" in (o.get("export") or {})),
+               rule="non-trivial = the class-style definition is followed by at least one edit; distinct by (items, operations)")
+    v1 = sorted([i for i, (c, st) in res.items() if c == 1], key=lambda i: (res[i][1], len(json.dumps([jobs[i]["items"], jobs[i]["ops"]]))))
+    v2 = sorted([i for i, (c, st) in res.items() if c == 2], key=lambda i: (res[i][1], len(json.dumps([jobs[i]["items"], jobs[i]["ops"]]))))
+    seen = set()
+    for i in v1[:2]:
+        st = res[i][1]                      # 0 = the class body itself, k >= 1 = operation k-1, len(ops)+1 = export
+        job = {k: v for k, v in jobs[i].items() if k != "ops_run"}
+        if st <= len(job["ops"]):
+            job = dict(job, ops=job["ops"][:st])
+        key = f"C18:class-then-edit:{job['ctr']}:{json.dumps([job['items'], job['ops']])}"
+        if key in seen:
+            continue
+        seen.add(key)
+        what = ("the class-style definition itself differs from the procedural one (get / attribute access / views)" if st == 0 else
+                "final exported package disagrees with the namespace" if st > len(jobs[i]["ops"]) else
+                "after its last edit the class-built container is not the coherent map its body and the edits denote")
+        body = "; ".join(f"{k} = <{v[0]}>" for k, v in job["items"])
+        run.violation(key, f"class-style {job['ctr']} with body {json.dumps(job['items'])} then {json.dumps(job['ops'])}: {what}",
+                      dict(kind="impl-violates-spec", stream="class-then-edit", case=dict(job, classhist=True), failing_step=st,
+                           impl=(outs[i]["cls"] if st == 0 else outs[i]["steps"][min(st, len(outs[i]["steps"])) - 1]),
+                           export=outs[i].get("export"), failing_cases=len(v1),
+                           reproducer=f"@h.{job['ctr']} class Edited: {body}   # then, on the result m: " + py_repro(dict(ctr=job['ctr'], ops=job['ops'])).split("; ", 5)[-1]))
+    if v2 and not v1:
+        i = v2[0]
+        run.violation("C18:class-then-edit:tie", f"model and implementation differ at step {res[i][1]} of class body {json.dumps(jobs[i]['items'])} "
+                      f"then {json.dumps(jobs[i]['ops'])}",
+                      dict(kind="correspondence-broken", stream="class-then-edit", case=dict(jobs[i], classhist=True), failing_step=res[i][1],
+                           theorem="C18 correspondence stream class-then-edit", disagreeing_cases=len(v2)), found_input=False)
+    run.sample(dict(stream="class-then-edit", case=jobs[0], impl_after_body=outs[0]["cls"].get("obs", {}).get("gets")))
+    return len(jobs)
+
+
 # ------------------------------------------------------------------------------------------ run
 def run(run, tier, seed, replay=None):
     quick = tier == "quick"
     if replay is not None:
         job = replay.get("case")
+        if isinstance(job, dict) and job.get("classhist"):
+            job = {k: v for k, v in job.items() if k != "classhist"}
+            out = core.run_worker_sharded("c18", [job], common=dict(kind="classhist"))[0]
+            bad = core.coq_eval_cases("C18", "replay", IMPORTS, "chcase", [c_classhist(job if out["cls"]["acc"] else dict(job, ops=[]), out)],
+                                      "run_cases chk_class_hist")
+            for i, r in bad:
+                run.violation(f"C18:class-then-edit:{job['ctr']}:{json.dumps([job['items'], job['ops']])}",
+                              f"replayed class body {json.dumps(job['items'])} then {json.dumps(job['ops'])}: code {r % 10} at step {r // 10 - 1}",
+                              dict(kind="impl-violates-spec" if r % 10 == 1 else "correspondence-broken", stream="replay",
+                                   case=dict(job, classhist=True), failing_step=r // 10 - 1), found_input=(r % 10 == 1))
+            run.stream("replay", 1, 1 if job["ops"] else 0, rule="the replayed class-style definition and edits")
+            run.sample(dict(stream="replay", case=job, verdict=bad))
+            return
         if isinstance(job, dict) and job.get("world"):
             jj, oo, res, _ = evaluate_world("replay", [job])
             report_world(run, "replay", jj, oo, res, do_shrink=False)
@@ -803,9 +1044,19 @@ def run(run, tier, seed, replay=None):
     pub_b = [n for n in st["public_bundle"]]
 
     total_traces = 0
+    cov2 = {t: 0 for t in DIR_TARGETS + CH_TARGETS}
+
+    def count_dir(jj_, oo_):
+        hits = {}
+        for j_, o_ in zip(jj_, oo_):
+            for t in dir_targets_history(j_, o_):
+                hits[t] = hits.get(t, 0) + 1
+                cov2[t] += 1
+        return hits
     # ---------------------------------------------------------------- corpus
     jobs = corpus()
     jj, oo, res, nf = evaluate("corpus", jobs)
+    count_dir(jj, oo)
     run.stream("corpus", len(jobs), sum(1 for j in jobs if nontrivial(j)), elaboration_failed=nf,
                rule="non-trivial = re-uses a name or contains a rejected form; pinned-tree witnesses and their neighbours")
     report(run, "corpus", jj, oo, res, do_shrink=False, limit=3, keep_order=True)
@@ -834,6 +1085,22 @@ def run(run, tier, seed, replay=None):
         total_traces += len(jobs)
     run.sample(dict(stream="exhaustive-small", case=jobs[len(jobs) // 2], export=oo[len(jobs) // 2].get("export")))
 
+    # ---------------------------------------------------------------- exhaustive-small over the eight Signal flavours
+    # (visibility x direction: h.Signal, h.Port, h.Input/Output/Inout, h.Signal(direction=..)) and one other kind
+    for ctr in ("module", "bundle"):
+        kinds = SIGK + (["inst"] if ctr == "module" else ["bun"])
+        ops1 = [o for n in ["a", "b"] for k in kinds for o in (["set", n, [k, None]], ["add", [k, n], None])]
+        maxlen = 2
+        jobs = [mk_job(ctr, [list(o) for o in seq], ["a", "b"]) for L in range(1, maxlen + 1) for seq in itertools.product(ops1, repeat=L)]
+        jj, oo, res, nf = evaluate("exf" + ctr[0], jobs, chunk=300)
+        run.stream(f"exhaustive-signal-flavours-{ctr}", len(jobs), len({json.dumps(j["ops"]) for j in jobs if nontrivial(j)}),
+                   exhaustive=True, box_size=len(jobs), ops_per_step=len(ops1), max_length=maxlen, elaboration_failed=nf,
+                   export_failed=sum(1 for o in oo if "err" in (o.get("export") or {})), targets_met=count_dir(jj, oo),
+                   box=f"all sequences of length <= {maxlen} over names a,b x kinds {kinds} x {{setattr, add}}",
+                   rule="non-trivial = some name is bound at least twice")
+        report(run, "exhaustive-flavours-" + ctr, jj, oo, res)
+        total_traces += len(jobs)
+
     # ---------------------------------------------------------------- structured random
     n_rand = 1500 if quick else 20000
     maxlen = 12 if quick else 25
@@ -845,6 +1112,7 @@ def run(run, tier, seed, replay=None):
             r = core.rng(seed, "C18", "random-" + ctr, k)
             jobs.append(mk_job(ctr, gen_random(r, ctr, plain, special, maxlen, 0.8), plain + special))
         jj, oo, res, nf = evaluate("rnd" + ctr[0], jobs, chunk=120)
+        count_dir(jj, oo)
         nops = sum(len(j["ops"]) for j in jobs)
         nrej = sum(1 for o in oo for s in o["steps"] if not s["acc"])
         run.stream(f"random-{ctr}", len(jobs), len({json.dumps(j["ops"]) for j in jobs if nontrivial(j)}),
@@ -889,6 +1157,9 @@ def run(run, tier, seed, replay=None):
     cases = [c_class(j, o) for j, o in zip(cjobs, couts)]
     bad = core.coq_eval_cases("C18", "class", IMPORTS, "ccase", cases, "run_cases chk_class", chunk=300)
     nrej = sum(1 for o in couts if not o["cls"]["acc"])
+    for j_, o_ in zip(cjobs, couts):
+        for t in dir_targets_class(j_, o_):
+            cov2[t] += 1
     run.stream("class-style", len(cjobs), len({json.dumps(j["items"]) for j in cjobs if len(j["items"]) >= 2}),
                rejected=nrej, rejected_fraction=round(nrej / len(cjobs), 3),
                rule="non-trivial = at least two items; distinct by item list")
@@ -905,6 +1176,13 @@ def run(run, tier, seed, replay=None):
                       dict(kind="correspondence-broken", stream="class-style", case=cjobs[i], impl=couts[i],
                            theorem="C18 correspondence stream class-style", disagreeing_cases=len(v2)), found_input=False)
     run.sample(dict(stream="class-style", case=cjobs[1], impl=couts[1]["cls"].get("obs", {}).get("ns")))
+    # ---------------------------------------------------------------- class-style definition, THEN an edit history
+    total_traces += run_class_then_edit(run, quick, seed, pub_m, pub_b, cov2)
+    run.coverage["round3_targets"] = cov2
+    for t, cnt in cov2.items():
+        if cnt == 0:
+            run.violation(f"C18:coverage:{t}", f"generator coverage target missed: no accepted case with {t}",
+                          dict(kind="coverage"), found_input=False)
     # ---------------------------------------------------------------- world histories: containers sharing live objects
     total_traces += run_world_streams(run, quick, seed, pub_m, pub_b)
     run.coverage["traces_validated_against_impl"] = total_traces + len(cjobs)
